@@ -98,6 +98,7 @@ class C15(Check):
             js.append(dict(kind='filt', n=len(sig), ker='w5' if len(sig) >= 5 else 'sym3', nan=[0] * len(sig), api='seq', ints=sig))
         for kc in KCLASSES:
             js.append(dict(kind='window', kc=kc))
+            js.append(dict(kind='window', kc=kc, again=True))      # aliasing probe: the list returned by an earlier call is edited by the caller
         return js
 
     def patches(self, job):
@@ -169,6 +170,11 @@ class C15(Check):
                 ker = sys.modules[KER]
                 wd = eng.real('width', 1, 2.5)
                 k = getattr(ker, job['kc'])(wd)
+                if job.get('again'):
+                    w1 = k.toSlidingWindow()
+                    for i in range(len(w1)):
+                        w1[i] = w1[i] * 3 + 1 + i          # the caller reuses the list it received (e.g. as a weight list it rescales)
+                    k = getattr(ker, job['kc'])(wd) if len(w1) % 2 else k
                 win = k.toSlidingWindow()
                 ctx.reach()
                 n = len(win)
@@ -249,6 +255,12 @@ class C15(Check):
             if job['kind'] == 'window':
                 ker = sys.modules[KER]
                 wd = float(inp['width'])
+                if job.get('again'):
+                    k0 = getattr(ker, job['kc'])(wd)
+                    w1 = k0.toSlidingWindow()
+                    for i in range(len(w1)):
+                        w1[i] = w1[i] * 3 + 1 + i
+                    k0.toSlidingWindow()
                 win = getattr(ker, job['kc'])(wd).toSlidingWindow()
                 n = len(win)
                 out = dict(n=n)
